@@ -45,7 +45,7 @@ ASSUMPTIONS = [
 RULE = ('value-constraint clause: (a) rtlgen designs (structs, nested structs, lists of signals, children, nets, ff blocks; '
         'slice-overlap family), plain and decorated with U<U (order / inversion / 2-cycle) and RD(x)/WR(x) <> U entries on '
         'objects other blocks read/write; (b) c08_gen legal hierarchical designs (fields, nested slices, constants); '
-        '(c) shape designs: one component, Bits and nested-bitstruct wires with list fields, random written objects '
+        '(e) library components (RTL queues with interfaces and bitstruct messages, arbiters, crossbar, register file); (c) shape designs: one component, Bits and nested-bitstruct wires with list fields, random written objects '
         '(single writer per bit) and random read objects (whole / field / nested field / list element / slice / variable '
         'index), nets, ff blocks, explicit constraints; (d) table: for each written object of a fixed universe, readers of '
         'every object of the universe. case = one design; non-trivial = at least one implicit pair')
@@ -251,7 +251,7 @@ def decorate_rtlgen(rng, d, src):
   """RD(x)/WR(x) <> U entries for an rtlgen design: x = an object some block of component C reads / writes (so that the
   expansion is not empty), U = a block of C"""
   fp = rtlgen.footprints(d)
-  added = 0
+  added, seen = 0, set()
   for _ in range(rng.randint(1, 3)):
     blks = list(d.blocks)
     if not blks: break
@@ -267,6 +267,8 @@ def decorate_rtlgen(rng, d, src):
     try: ref = d.ref(comp, r)
     except ValueError: continue
     op = rng.choice('<>')
+    if (typ, ref, u['name']) in seen: continue       # add_constraints asserts "Duplicated constraint"
+    seen.add((typ, ref, u['name']))
     src = insert_into_class(src, d.cls_name(comp), [f'    s.add_constraints( {typ}( {ref} ) {op} U( {u["name"]} ) )'])
     added += 1
   return src, added
@@ -351,6 +353,10 @@ def gen_shape(rng):
   for _ in range(rng.randint(nb, 3 * nb)):
     k = rng.randrange(nb)
     o = rng.choice(objs[rng.choice(writable)])
+    if rng.random() < 0.08:      # a write through a variable index is recorded as a write of the whole signal
+      vs = [(n, t) for n, c, t in sigs if n[0] == 'w' and c != 'list' and isinstance(t, int)]
+      if vs:
+        n, t = rng.choice(vs); o = (f's.{n}[s.sel]', 1, (n, 0, t))
     if not free_for(o, k): continue
     if any(bk == k for (_, _, bk) in taken.get(o[2][0], [])) and rng.random() < 0.6: continue   # same-block overlap: sometimes
     take(o, k)
@@ -429,6 +435,30 @@ def gen_table(k, ff=False):
   out += ['    pass', '']
   return '\n'.join(out), cls
 
+# (e) library components (interfaces, function-free RTL with nets across two levels) ------------
+STDLIB = [
+  ('from pymtl3.stdlib.queues.queues import NormalQueueRTL', 'NormalQueueRTL( Bits8, 2 )'),
+  ('from pymtl3.stdlib.queues.queues import NormalQueueRTL', 'NormalQueueRTL( GdMsg, 3 )'),
+  ('from pymtl3.stdlib.queues.queues import PipeQueueRTL', 'PipeQueueRTL( GdMsg, 2 )'),
+  ('from pymtl3.stdlib.queues.queues import BypassQueueRTL', 'BypassQueueRTL( Bits8, 1 )'),
+  ('from pymtl3.stdlib.stream.queues import NormalQueueRTL', 'NormalQueueRTL( GdMsg, 2 )'),
+  ('from pymtl3.stdlib.stream.queues import PipeQueueRTL', 'PipeQueueRTL( Bits8, 1 )'),
+  ('from pymtl3.stdlib.stream.queues import BypassQueueRTL', 'BypassQueueRTL( Bits8, 2 )'),
+  ('from pymtl3.stdlib.basic_rtl.arbiters import RoundRobinArbiter', 'RoundRobinArbiter( 4 )'),
+  ('from pymtl3.stdlib.basic_rtl.arbiters import RoundRobinArbiterEn', 'RoundRobinArbiterEn( 3 )'),
+  ('from pymtl3.stdlib.basic_rtl.crossbars import Crossbar', 'Crossbar( 3, Bits8 )'),
+  ('from pymtl3.stdlib.basic_rtl.register_files import RegisterFile', 'RegisterFile( Bits8, 4, 2, 1 )'),
+]
+
+def gen_stdlib(k):
+  imp, ctor = STDLIB[k]
+  u = next(_uid)
+  cls = f'GdStd{u}'
+  base, args = ctor.split('(', 1)[0], ctor.split('(', 1)[1].rsplit(')', 1)[0].strip()
+  src = '\n'.join(['from pymtl3 import *', imp, '', '@bitstruct', 'class GdMsg:', '  a: Bits4', '  b: Bits8', '',
+                   f'class {cls}( {base} ):', '  def construct( s ):', f'    super().construct( {args} )', ''])
+  return src, cls
+
 # ---------------------------------------------------------------------------------------------
 # one design: elaborate, extract, oracle, model
 # ---------------------------------------------------------------------------------------------
@@ -488,8 +518,10 @@ def run(ck):
   for k in range(len(TABLE_OBJS)):
     todo.append(gen_table(k) + ('table',))
   todo.append(gen_table(0, ff=True) + ('table',))
+  # (e) library components
+  for k in range(len(STDLIB)): todo.append(gen_stdlib(k) + ('stdlib',))
   # (a) rtlgen
-  for _ in range(150 if quick else 2500):
+  for _ in range(150 if quick else 800):
     r = rng.random()
     d = rtlgen.generate_slices(rng) if r < 0.25 else rtlgen.generate(rng, max_blocks=8, structs=(rng.random() < 0.7))
     fam = 'rtlgen'
@@ -502,12 +534,12 @@ def run(ck):
       if n: fam = 'rtlgen+RDWR'
     todo.append((src, d.cls_name(''), fam))
   # (b) c08_gen legal designs
-  for _ in range(80 if quick else 1500):
+  for _ in range(80 if quick else 400):
     d = c08_gen.gen_legal(rng, d1=(rng.random() < 0.3))
     var = d.variant_orders(rng, identity=True)
     todo.append((d.source([var]), d.cls_name(0, 0), 'c08gen'))
   # (c) shapes
-  for _ in range(400 if quick else 8000):
+  for _ in range(400 if quick else 2500):
     todo.append(gen_shape(rng) + ('shape',))
   lines, metas, rejected = [], [], {}
   for (src, cls, fam) in todo:
